@@ -247,6 +247,13 @@ def worker_main(argv: list[str]) -> int:
                     break
                 small, nruns = shrink(check, rp, cls, min(deadline + 30, time.time() + 40))
                 fin = check.run_plan(small)
+                if fin["status"] != "violation" or check.signature_class(fin["signature"]) != cls:
+                    # the shrunk plan does not fail every time (the system under test draws
+                    # on a source of randomness outside the simulation): report the
+                    # confirmed, unshrunk replay instead
+                    small, fin = rp, rr
+                    out.setdefault("unstable_shrinks", 0)
+                    out["unstable_shrinks"] += 1
                 out["violations"].append({"run": run, "signature": fin["signature"], "detail": fin.get("detail", ""), "plan": small, "shrink_runs": nruns, "orig_signature": sig})
             else:
                 out.setdefault("dup_violations", 0)
